@@ -31,8 +31,11 @@ def strategy(tier):
         if tier == "thorough":
             n = draw(st.sampled_from([130, 300, 700, 2100, 2300, 5100]))
         else:
-            n = draw(st.sampled_from([130, 200, 260, 300, 520]))
-        c = dict(source_width=64, source_height=64, enc_mode=8, recon_enabled=1, logical_processors=draw(st.sampled_from([2, 4])),
+            n = draw(st.sampled_from([135, 140, 200, 260, 300, 520]))
+        # presets <= 5 use several references per list (the order-hint distance helpers then really choose between candidates that
+        # straddle the wrap); high QP makes skip-mode / compound decisions matter. Slow presets only with N <= 300.
+        pm = draw(st.sampled_from([8, 8, 8, 5, 5, 4])) if n <= 300 else 8
+        c = dict(source_width=64, source_height=64, enc_mode=pm, qp=draw(st.sampled_from([20, 50, 58, 63])), recon_enabled=1, logical_processors=draw(st.sampled_from([2, 4])),
                  hierarchical_levels=draw(st.sampled_from([0, 2, 3, 4, 5])), intra_period_length=draw(st.sampled_from([-1, 31, 255, 2047, 2048, -2])))
         if draw(st.integers(0, 2)) == 0:
             c["enable_overlays"] = 1
